@@ -1757,6 +1757,26 @@ def battery_plan():
             kw = {'coordsys': 'image'} if (fmt == 'crtf' and not sky) else {}
             op('serialize_fixed', [lst], fmt=fmt, kw=kw)
             op('io_fixed', [lst], fmt=fmt, kw=kw)
+    # non-default option values of the serialisers and parsers
+    for cls in ('CircleSkyRegion', 'EllipseSkyRegion'):
+        i = add('skyreg', gen.region_from_tokens(
+            cls, gen.draw_tokens(rng, cls, small=True), gen.meta_items(rng),
+            gen.visual_items(rng)))
+        for kw in ({'fmt': '.3f'}, {'radunit': 'arcsec'},
+                   {'coordsys': 'galactic'}, {'coordsys': 'fk4',
+                                              'radunit': 'arcmin'}):
+            op('serialize_fixed', [i], fmt='crtf', kw=kw)
+        for p in (1, 12):
+            op('serialize_fixed', [i], fmt='ds9', kw={'precision': p})
+    for err in ('warn', 'ignore'):
+        t = add('text:crtf', {'t': 'lit', 'v': '#CRTFv0\n' + CRTF_LINES[0]
+                              + '\n' + CRTF_BAD_LINES[2] + '\n'
+                              + CRTF_LINES[2] + '\n'})
+        op('parse_fixed', [t], fmt='crtf', kw={'errors': err})
+    # compounds, list slicing, membership, overlap slices, PixCoord <-> sky
+    cp = add('pixcomp', gen.compound_region(rng, sky=False, depth=1))
+    cs = add('skycomp', gen.compound_region(rng, sky=True, depth=1))
+    op('compound_fixed', [cp, cs, w, p0, s0])
     t = add('text:crtf', {'t': 'datafile',
                           'path': 'io/crtf/tests/data/CRTFgeneral.crtf'})
     op('mislabel_fixed', [t], ext='.reg')
@@ -1785,7 +1805,8 @@ def _battery_ops(ex):
 
     def parse_fixed(a, op):
         data = a.slot(('x',))
-        return lambda: Regions.parse(data, format=op['fmt'])
+        return lambda: Regions.parse(data, format=op['fmt'],
+                                     **op.get('kw', {}))
 
     def serialize_fixed(a, op):
         r = a.slot(('x',))
@@ -1845,6 +1866,34 @@ def _battery_ops(ex):
             with open(path, 'w') as fh:
                 fh.write(text)
             return Regions.read(path)
+        return fn
+
+    def compound_fixed(a, op):
+        cp = a.slot(('x',))
+        cs = a.slot(('x',))
+        w = a.slot(('x',))
+        p = a.slot(('x',))
+        s = a.slot(('x',))
+
+        def fn():
+            from regions import PixCoord, Regions as R_
+
+            def t(f):
+                try:
+                    return f()
+                except Exception as exc:
+                    return ['raised', type(exc).__name__]
+            lst = R_([cp.region1, cp.region2, cp])
+            return [t(lambda: cp.contains(p)), t(lambda: p in cp),
+                    t(lambda: cp.bounding_box),
+                    t(lambda: cp.to_mask(mode='center')),
+                    t(lambda: cs.contains(s, w)), t(lambda: cs.to_pixel(w)),
+                    t(lambda: cp.to_sky(w)), lst[0:2], lst[::-1], len(lst),
+                    lst[-1] is cp,
+                    t(lambda: cp.bounding_box.get_overlap_slices((40, 50))),
+                    t(lambda: p.to_sky(w)),
+                    t(lambda: PixCoord.from_sky(s, w)),
+                    t(lambda: p.to_sky(w, origin=1, mode='wcs'))]
         return fn
 
     def misc_fixed(a, op):
